@@ -219,7 +219,56 @@ def fallback_differs(F, R):
     R.floor('guarded fallback definitions in service resources', n, 2)
 
 
+def _reaches(F, ty, target, seen=None, depth=0):
+    seen = seen if seen is not None else set()
+    acc = set()
+    adts_in(ty, acc)
+    for p_ in acc:
+        if p_ == target:
+            return True
+        if p_ in seen or depth > 8:
+            continue
+        seen.add(p_)
+        a = F.adts.get(p_)
+        if a and a['crate'] == 'iceoryx2':
+            for v in a['variants']:
+                for fld in v['fields']:
+                    if _reaches(F, fld['ty'], target, seen, depth + 1):
+                        return True
+    return False
+
+
+def node_released_after_tag(F, R):
+    """F20: the port tag lives inside the node's directory.  Dropping the last SharedNode removes that directory (remove_node -> rmdir), which
+    fails while the tag is still inside and is never retried.  So in every struct that owns a `port_tag`, a SharedNode handle must be
+    dropped AFTER the tag's storage: a field declared after `port_tag`, or the tag type itself owning a SharedNode behind its storage."""
+    SN = 'iceoryx2::node::SharedNode'
+    n = 0
+    for aid, a in sorted(F.adts.items()):
+        if a['crate'] != 'iceoryx2' or a['kind'] != 'struct' or not a['variants'] or not aid.startswith('iceoryx2::port::'):
+            continue
+        flds = a['variants'][0]['fields']
+        names = [x['name'] for x in flds]
+        if 'port_tag' not in names:
+            continue
+        n += 1
+        i = names.index('port_tag')
+        later = any(_reaches(F, x['ty'], SN) for x in flds[i + 1:])
+        inside = False
+        tt = flds[i]['ty']
+        if tt[0] == 'adt' and tt[1] in F.adts and F.adts[tt[1]]['crate'] == 'iceoryx2' and F.adts[tt[1]]['variants']:
+            tf = F.adts[tt[1]]['variants'][0]['fields']
+            st = [k for k, x in enumerate(tf) if 'StaticStorage' in x['ty_s'] or 'static_storage' in x['ty_s']]
+            if st:
+                inside = any(_reaches(F, x['ty'], SN) for x in tf[st[0] + 1:])
+        holds_node_before = any(_reaches(F, x['ty'], SN) for x in flds[:i])
+        R.ob('FIELD-ORDER', 'FIELD-ORDER::%s::node-handle-released-after-port_tag' % aid, later or inside or not holds_node_before,
+             'fields %s: a SharedNode handle %s after the tag storage; the fields before `port_tag` %s a SharedNode: when this object is the last owner the node directory is removed (rmdir) while the tag file is still inside, fails and is never retried -> <root>/nodes/<id>/ stays' % (names, 'is dropped' if (later or inside) else 'is NOT dropped', 'hold' if holds_node_before else 'do not hold'), '%s:%s' % (a['file'], a['line']))
+    R.floor('structs owning a port_tag', n, 8)
+
+
 def check(F, R, tier):
+    node_released_after_tag(F, R)
     fallback_differs(F, R)
     accumulator_loops(F, R)
     port_pairing(F, R)
